@@ -26,12 +26,17 @@ META = dict(
 TF = 1e-12
 
 
+UNITS = ["nm", "um", "ns", "mm"]
+
+
 def _mesh(sx, df, cfg, n, dims=None, **kw):
     """symbolic geometry, or (cfg['box']) a concrete box given with integer-typed corners (the library keeps int arrays then)"""
+    if cfg.get("units"):
+        kw["units"] = UNITS[: len(n)]  # a different unit on every axis
     if cfg.get("box"):
         p1, p2 = cfg["box"]
         nd = len(n)
-        region = df.Region(p1=tuple(p1) if nd > 1 else p1[0], p2=tuple(p2) if nd > 1 else p2[0], dims=dims)
+        region = df.Region(p1=tuple(p1) if nd > 1 else p1[0], p2=tuple(p2) if nd > 1 else p2[0], dims=dims, units=kw.get("units"))
         mesh = df.Mesh(region=region, n=n if nd > 1 else n[0])
         pmin = [min(a, b) for a, b in zip(p1, p2)]
         e = [abs(b - a) for a, b in zip(p1, p2)]
@@ -394,10 +399,34 @@ def h_resample(sx, cfg):
     sx.check("shape", ok)
     if not ok:
         return
+    _resample_cells(sx, g, "", n, tn, nv, vals, valid)
+    if cfg.get("history"):
+        # the mask and the values are edited in place between two resamplings: the second follows the current state
+        w_ok = sx.bool("w_ok")
+        w_v = sx.real("w_v")
+        first = (0,) * nd
+        f.valid[first] = w_ok
+        f.array[first + (0,)] = w_v
+        valid2 = np.array(valid, dtype=object, copy=True)
+        valid2[first] = w_ok
+        vals2 = np.array(vals, dtype=object, copy=True)
+        vals2[first + (0,)] = w_v
+        g2 = f.resample(tn if nd > 1 else tn[0])
+        _resample_cells(sx, g2, "after-in-place-edit-", n, tn, nv, vals2, valid2)
+    for bad in ([0] * nd, [2] * (nd + 1)):
+        try:
+            f.resample(tuple(bad))
+        except (ValueError, TypeError, IndexError):
+            sx.check(f"bad-target-{len(bad)}-refused", True)
+        else:
+            sx.check(f"bad-target-{len(bad)}-refused", False)
+
+
+def _resample_cells(sx, g, tag, n, tn, nv, vals, valid):
+    nd = len(n)
     for idx in np.ndindex(*tn):
         cands = None
         for a in range(nd):
-            lo, hi = F(min(p1[a], p2[a])), F(max(p1[a], p2[a]))
             q = (F(2 * idx[a] + 1) / 2) * n[a] / tn[a]  # centre in units of source cells
             # a centre exactly on a source face belongs to the upper cell (cells are lower-face inclusive, C01); the
             # geometries used here are binary fractions, so the tie is exact in binary64 as well
@@ -407,14 +436,7 @@ def h_resample(sx, cfg):
         for cd in cands:
             cd = tuple(cd)
             alts.append(sx.And(*[sx.eq(g.array[idx + (k,)], vals[cd + (k,)]) for k in range(nv)], _same_valid(sx, g.valid[idx], valid[cd])))
-        sx.check(f"cell{idx}", sx.Or(*alts))
-    for bad in ([0] * nd, [2] * (nd + 1)):
-        try:
-            f.resample(tuple(bad))
-        except (ValueError, TypeError, IndexError):
-            sx.check(f"bad-target-{len(bad)}-refused", True)
-        else:
-            sx.check(f"bad-target-{len(bad)}-refused", False)
+        sx.check(f"{tag}cell{idx}", sx.Or(*alts))
 
 
 def h_refuse(sx, cfg):
@@ -451,7 +473,8 @@ def tasks(tier):
         planes += [((4, 3), 2, 0), ((3, 4), 1, 1), ((3, 2, 2), 2, 0), ((2, 2, 4), 1, 2), ((2, 1, 2, 3), 1, 3), ((2, 3, 1, 2), 1, 1)]
     for i, (n, nv, ax) in enumerate(planes):
         for how in ("value", "centre"):
-            t.append(dict(harness="h_plane", cfg=dict(n=list(n), nvdim=nv, axis=ax, how=how, dims="renamed" if i % 2 else "default", labels=bool(i % 2)), limits=big))
+            t.append(dict(harness="h_plane", cfg=dict(n=list(n), nvdim=nv, axis=ax, how=how, dims="renamed" if i % 2 else "default", labels=bool(i % 2),
+                                                      units=bool((i + (how == "centre")) % 2)), limits=big))
     # integer-typed corners with fractional cells and negative coordinates (the library keeps int arrays for such regions)
     for n, box, ax in ([((4,), [[-1], [1]], 0), ((3, 4), [[0, -5], [3, 5]], 1)] if q else [((4,), [[-1], [1]], 0), ((3, 4), [[0, -5], [3, 5]], 1), ((4, 2, 2), [[2, 0, 0], [0, 1, 3]], 0)]):
         t.append(dict(harness="h_plane", cfg=dict(n=list(n), nvdim=1, axis=ax, how="value", box=box), limits=dict(big, validate=12)))
@@ -461,7 +484,7 @@ def tasks(tier):
     if not q:
         ranges += [((4, 2), 1, 0), ((2, 4), 2, 1), ((3, 2, 2), 1, 0), ((1, 2, 3), 2, 2), ((2, 1, 3, 1), 1, 2)]
     for i, (n, nv, ax) in enumerate(ranges):
-        t.append(dict(harness="h_range", cfg=dict(n=list(n), nvdim=nv, axis=ax, as_tuple=bool(i % 2 == 0), dims="renamed" if i % 2 else "default"), limits=big))
+        t.append(dict(harness="h_range", cfg=dict(n=list(n), nvdim=nv, axis=ax, as_tuple=bool(i % 2 == 0), dims="renamed" if i % 2 else "default", units=bool(i % 2 == 0)), limits=big))
     names = [
         dict(n=[4], nvdim=1, boxes={"left": ([0], [2]), "right": ([2], [4])}),
         dict(n=[3, 2], nvdim=2, boxes={"s1": ([0, 0], [2, 2]), "s2": ([1, 1], [3, 2])}),
@@ -493,8 +516,8 @@ def tasks(tier):
         t.append(dict(harness="h_pad", cfg=cfg, limits=big))
     res = [
         dict(n=[3], target=[5], box=[[0.0], [3.0]], nvdim=1),
-        dict(n=[4], target=[2], box=[[1.0], [-3.0]], nvdim=2),
-        dict(n=[2, 3], target=[3, 2], box=[[0.0, 0.0], [2.0, 3.0]], nvdim=1),
+        dict(n=[4], target=[2], box=[[1.0], [-3.0]], nvdim=2, history=True),
+        dict(n=[2, 3], target=[3, 2], box=[[0.0, 0.0], [2.0, 3.0]], nvdim=1, history=True),
         dict(n=[3, 2], target=[3, 2], box=[[-1.0, 0.5], [2.0, 4.5]], nvdim=2),
         dict(n=[2, 2, 1], target=[1, 3, 2], box=[[0, 0, 0], [4.0, 6.0, 1.0]], nvdim=1),
     ]
